@@ -5,25 +5,18 @@ import GrafeoModel.Driver.Proto
 namespace Grafeo.DriverOps
 open Grafeo.Ops Grafeo.Proto
 
-/-- `a,b|c||d` → [[a,b],[c],[],[d]]; `-` → no chunks at all. -/
+/-- `a,b|c|_|d` → [[a,b],[c],[],[d]]; `-` → no chunks at all. -/
 def parseChunks (s : String) : List (List String) :=
-  if s == "-" then [] else (s.splitOn "|").map (fun c => if c == "" then [] else c.splitOn ",")
+  if s == "-" then [] else (s.splitOn "|").map (fun c => if c == "" || c == "_" then [] else c.splitOn ",")
 
 def showChunks (cs : List (List String)) : String :=
-  if cs.isEmpty then "-" else joinWith "|" (cs.map (joinWith ","))
+  if cs.isEmpty then "-" else joinWith "|" (cs.map (fun c => if c.isEmpty then "_" else joinWith "," c))
 
 def showFlat (rows : List String) : String := if rows.isEmpty then "-" else joinWith "," rows
 
-/-- two's complement reading of 16 hex digits as i64 -/
-def hexToI64 (h : String) : Int :=
-  let n := h.toList.foldl (fun acc c => acc * 16 + ((hexVal c).getD 0)) 0
-  if n ≥ 2 ^ 63 then (n : Int) - 2 ^ 64 else n
-
-/-- `RowKey::from_row` for one column: floats are keyed by their bit pattern *as an Int64 part*. -/
-def rowKey (tok : String) : String :=
-  match tok.toList with
-  | 'F' :: rest => "I" ++ toString (hexToI64 (String.ofList rest))
-  | _ => tok
+/-- `RowKey::from_row` for one column: one key part per value, floats by bit pattern in their
+own variant (repaired code) — i.e. the key of a token is the token. -/
+def rowKey (tok : String) : String := tok
 
 def dedupTokens : List String → List String → List String
   | _, [] => []
@@ -62,7 +55,7 @@ def handle (args : List String) : Option Proto.Out :=
     let m := (distinctOp rowKey Generated.chunkCapacity [] c).flatten
     let s := dedupTokens [] c.flatten
     let big := c.any (fun x => x.length > Generated.chunkCapacity)
-    some (mk (showFlat m) (showFlat s) (if big then "distinct-oversized-chunk" else "distinct-float-int-key-collision"))
+    some (mk (showFlat m) (showFlat s) (if big then "distinct-oversized-chunk" else "distinct-merges-or-splits"))
   | _ => none
 
 end Grafeo.DriverOps
